@@ -134,6 +134,45 @@ theorem navigation_valid (L Dm : AMat Rat n) (mh : Option ℕ) (fuel : ℕ) (o :
       intro x; cases x <;> simp [Ext.isFin]
     simp only [e]
 
+/-- **`navigation_step_greedy`**: the node the model's step function moves to from `c` is
+`neighbors[np.argmin(D[target, neighbors])]`: a neighbour of `c` (in index order `nbrs L c`), strictly closer to the target
+than every neighbour listed before it and at least as close as every neighbour listed after it (first minimum on ties) -/
+theorem navigation_step_greedy (L Dm : AMat Rat n) (target c y : Fin n)
+    (h : argminFirst (fun x => Dm.get target x) (nbrs L c) = some y) : GreedyChoice L Dm target c y :=
+  Dist.navigation_step_greedy L Dm target c y h
+
+/-- **`navigation_path_greedy`** and the stopping conditions, as coded: whenever the pair loop returns for `(i,j)`, the
+recorded list is `i :: q` where every step `a → b` of `q` (`stepsCoded`) starts at a node `a ≠ j`, goes to the greedy
+choice at `a`, does not return to the previous node, and was taken with `pl_bin ≤ max_hops`; and the walk stopped either
+at `j` (then `PL_bin` is the number of steps) or at another node for exactly one of the three coded reasons (`StopReason`:
+no neighbours, the greedy choice is the previous node, or `pl_bin > max_hops`), in which case all three lengths are `∞`.
+Hence "failed ⇔ one of these happened before reaching the target". -/
+theorem navigation_path_greedy (L Dm : AMat Rat n) (mh : Option ℕ) (fuel : ℕ) (i j : Fin n) (r : NavRes n)
+    (h : navPair L Dm mh fuel i j = some r) :
+    ∃ q, r.path = i :: q ∧ stepsCoded L Dm mh j i 0 i q ∧
+      (((endState i 0 i q).2.2 = j ∧ r.bin = .fin (((endState i 0 i q).2.1 : ℕ) : Rat)) ∨
+       ((endState i 0 i q).2.2 ≠ j ∧ r.bin = .inf ∧ r.wei = .inf ∧ r.dis = .inf ∧
+          StopReason L Dm mh j (endState i 0 i q).1 (endState i 0 i q).2.1 (endState i 0 i q).2.2)) :=
+  navPair_trace L Dm mh fuel i j r h
+
+/-- failure ⇔ a stop reason occurred away from the target: the reported `PL_bin` is infinite exactly when the walk ended at
+a node other than the target (where, by `navigation_path_greedy`, one of the three coded reasons holds) -/
+theorem navigation_failed_iff (L Dm : AMat Rat n) (mh : Option ℕ) (fuel : ℕ) (i j : Fin n) (r : NavRes n)
+    (h : navPair L Dm mh fuel i j = some r) :
+    ∃ q, r.path = i :: q ∧ (r.bin = .inf ↔ (endState i 0 i q).2.2 ≠ j) ∧
+      (r.bin = .inf → StopReason L Dm mh j (endState i 0 i q).1 (endState i 0 i q).2.1 (endState i 0 i q).2.2) := by
+  obtain ⟨q, hq, _, hend⟩ := navPair_trace L Dm mh fuel i j r h
+  refine ⟨q, hq, ?_, ?_⟩
+  · rcases hend with ⟨e1, e2⟩ | ⟨e1, e2, _⟩
+    · constructor
+      · intro hinf; rw [e2] at hinf; exact absurd hinf (by simp)
+      · intro hne; exact absurd e1 hne
+    · exact ⟨fun _ => e1, fun _ => e2⟩
+  · intro hinf
+    rcases hend with ⟨_, e2⟩ | ⟨_, _, _, _, hs⟩
+    · rw [e2] at hinf; exact absurd hinf (by simp)
+    · exact hs
+
 /-! ## non-vacuity -/
 
 example : retrieve (floyd (lenMat .none ex3)).hops (floyd (lenMat .none ex3)).P 1 1 = [] := by decide +kernel
